@@ -210,6 +210,68 @@ def run(ctx):
             for k in a["_keys"]:
                 ver3.append(("jws.ver", {"jws": tok, "jwk": k, "_expect": True, "_why": side + " multi-key single"}))
     compare(ctx, ver3, p_ver)
+    run_cli(ctx, pool)
+
+
+def run_cli(ctx, pool):
+    """the same round trip through the command-line tool, whose payload plumbing (byte-wise reads from a file or
+    stdin, streaming through base64) is separate code: every byte value, NUL, 0xFF, dots and newlines in the payload"""
+    rng = ctx.rng
+    js = lambda o: json.dumps(o, separators=(",", ":"))
+    pays = [bytes(range(256)), b"\xff", b"ab\xffcd", b"\x00", b"\xff\xfe\xfd" * 20, b"dots.in.payload\n", b"", rng.randbytes(1000),
+            bytes([0xff] * 48), b"\r\n\x1a\x04\x1b"]
+    keys = [("oct-32", "HS256"), ("EC-P256", "ES256"), ("RSA-2048", "RS256")]
+    ops = []
+    for pay in pays:
+        for kn, alg in (keys if len(pay) in (256, 1, 5) else keys[:1]):
+            for via in ("file", "stdin"):
+                for compact in (False, True):
+                    fs = {"k.jwk": js(pool[kn]).encode().hex()}
+                    argv = ["jws", "sig", "-i", "{}", "-s", js({"protected": {"alg": alg}}), "-k", "k.jwk", "-I", "pay.bin" if via == "file" else "-"] + (["-c"] if compact else [])
+                    a = {"argv": argv, "files": fs, "_pay": pay, "_kn": kn, "_alg": alg}
+                    if via == "file":
+                        fs["pay.bin"] = pay.hex()
+                    else:
+                        a["stdin"] = pay.hex()
+                    ops.append(("cli.run", a))
+    real = ctx.real([(o, strip(a)) for o, a in ops])
+    ver, cliver = [], []
+    for (o, a), r in zip(ops, real):
+        ctx.evaluations += 1
+        ctx.count("op:cli jws sig")
+        if "crash" in r:
+            ctx.pfails.append(("crash:cli.run", r["crash"], o, strip(a), r))
+            continue
+        text = bytes.fromhex(r.get("stdout") or "").decode("utf-8", "replace").strip()
+        tok = None
+        if r.get("status") == 0:
+            if text.startswith("{"):
+                try:
+                    tok = json.loads(text)
+                except Exception:
+                    tok = None
+            elif text.count(".") == 2:
+                p_, y_, s_ = text.split(".")
+                tok = {"protected": p_, "payload": y_, "signature": s_}
+        if tok is None:
+            ctx.pfails.append(("cli:sig:refused", "jose jws sig failed or printed no token for a %d-byte payload (%s): %r" % (len(a["_pay"]), " ".join(a["argv"]), text[:100]),
+                               o, strip(a), r))
+            continue
+        if tok.get("payload") != G.b64u(a["_pay"]):
+            ctx.pfails.append(("cli:sig:payload", "the token signs payload %r..., the file held %r... (%d bytes)" % (
+                G.b64d(tok.get("payload") or "")[:12], a["_pay"][:12], len(a["_pay"])), o, strip(a), r))
+            continue
+        ver.append(("jws.ver", {"jws": tok, "jwk": pool[a["_kn"]], "_expect": True, "_why": "signed by the command-line tool, %d-byte payload" % len(a["_pay"])}))
+        det = {k: v for k, v in tok.items() if k != "payload"}
+        cliver.append(("cli.run", {"argv": ["jws", "ver", "-i", js(det), "-I", "pay.bin", "-k", "k.jwk", "-O", "-"],
+                                   "files": {"k.jwk": js(pool[a["_kn"]]).encode().hex(), "pay.bin": a["_pay"].hex()}, "_pay": a["_pay"]}))
+    compare(ctx, ver, p_ver)
+    for (o, a), r in zip(cliver, ctx.real([(o, strip(a)) for o, a in cliver])):
+        ctx.evaluations += 1
+        ctx.count("op:cli jws ver")
+        if r.get("status") != 0 or r.get("stdout") != a["_pay"].hex():
+            ctx.pfails.append(("cli:ver:detached", "jose jws ver -I on the very file that was signed: status %s, %d bytes written for %d" % (
+                r.get("status"), len(r.get("stdout") or "") // 2, len(a["_pay"])), o, strip(a), r))
 
 
 def replay(ctx, rp):
